@@ -3,6 +3,7 @@ import Bmc.Proofs.C12
 import Bmc.Proofs.C03
 import Bmc.Lemmas.HandshakeLive
 import Bmc.Lemmas.ResponseAccepted
+import Bmc.Lemmas.BmcSessionLive
 import Bmc.Crypto.Toy
 /-! # C01 — session establishment agrees on keys with every conforming BMC (property theorems only)
 
@@ -207,5 +208,108 @@ example :
       [List.replicate 16 3] [.reply (responseDatagram Crypto.toy ⟨7, 9, 1, [1], List.replicate 16 0⟩ { fn := 6, cmd := 1 } 0
         [0x20, 1, 2, 3, 2, 0xbf, 0, 0, 0, 0, 0] 5 (List.replicate 16 4))]).2.2 = .ok 0 [0x20, 1, 2, 3, 2, 0xbf, 0, 0, 0, 0, 0] := by
   decide +kernel
+
+-- console ∥ conforming BMC, command after command -----------------------------------------------------------------------
+open Bmc.Spec Bmc.Proofs.C03 in
+/-- what makes one exchange well-posed: a 16-byte IV on both sides, a well-formed request (even NetFn < 63, LUN < 4, …)
+    that fits a datagram, a BMC answer (completion code `cc`, data) that is not one of the two temporary codes and
+    fits a datagram -/
+structure Exchange (C : Ops) (k : Keys) (c : Cmd) (iv biv : Bytes) (cc : UInt8) (data : Bytes) : Prop where
+  ser : c.reqFails = false
+  ivLen : iv.length = 16
+  bivLen : biv.length = 16
+  req : (requestMessage c).WF
+  isReq : isRequest c.fn = true
+  fits : (aesPayload C k c iv).length < 65536
+  rsp : (responseMsg c cc).WF
+  rfits : (responseAes C k c cc data biv).length < 65536
+  final : isTemp cc = false
+
+open Bmc.Spec Bmc.Proofs.C03 in
+/-- COMMAND ANSWERED: the console's datagram for ANY command passes the conforming BMC's integrity check, decryption
+    and message checks; the BMC reads out of it exactly the caller's command (NetFn, number, prefix, LUN, body, with
+    sequence number counter + 1); and the datagram the BMC sends back — whatever its handler answers — is accepted by
+    the console, which returns the handler's completion code and data after ONE transmission. Every lawful crypto,
+    key set, counter value, BMC sequence number and IVs. -/
+theorem command_answered (C : Ops) (hC : C.Lawful) (c : Cmd) (s : Sess) (hid : s.localID < 4294967296)
+    (hr : s.remoteID < 4294967296) (iv : Bytes) (ivs : List Bytes) (handler : BmcReq → UInt8 × Bytes) (bseq : Nat)
+    (hb : bseq < 4294967296) (biv : Bytes) (rest : List Outcome)
+    (hx : Exchange C s.keys c iv biv
+            (handler ⟨(s.inbound + 1) % 4294967296, c.fn, c.cmd, c.body, c.ent, c.lun, c.req⟩).1
+            (handler ⟨(s.inbound + 1) % 4294967296, c.fn, c.cmd, c.body, c.ent, c.lun, c.req⟩).2) :
+    ∃ reply, bmcAnswer C s.keys handler bseq biv (datagramOf C s.keys c s.inbound iv) = some reply ∧
+      (sendLoop C c s (iv :: ivs) (.reply reply :: rest)).2 =
+        ([datagramOf C s.keys c s.inbound iv],
+         .ok (handler ⟨(s.inbound + 1) % 4294967296, c.fn, c.cmd, c.body, c.ent, c.lun, c.req⟩).1
+             (handler ⟨(s.inbound + 1) % 4294967296, c.fn, c.cmd, c.body, c.ent, c.lun, c.req⟩).2) := by
+  have hopen := bmc_opens_request C hC s.keys hr c s.inbound iv hx.ivLen hx.req hx.isReq hx.fits
+  refine ⟨_, by simp only [bmcAnswer, hopen, Option.map_some]; rfl, ?_⟩
+  exact response_returned C hC c hx.ser s iv ivs _ _ bseq biv rest hx.bivLen hx.rsp hid hb hx.rfits hx.final
+
+open Bmc.Spec Bmc.Proofs.C03 in
+/-- the console and the conforming BMC in conversation: command after command on one session, each datagram handed
+    to the BMC, the BMC's answer handed back (a packet the BMC drops ends the command with a transport error) -/
+def converse (C : Ops) (handler : BmcReq → UInt8 × Bytes) : Sess → Nat → List (Cmd × Bytes × Bytes) → List Res
+  | _, _, [] => []
+  | s, bseq, (c, iv, biv) :: rest =>
+    match bmcAnswer C s.keys handler bseq biv (datagramOf C s.keys c s.inbound iv) with
+    | none => [.transportErr]
+    | some reply =>
+      let r := sendLoop C c s [iv] [.reply reply]
+      r.2.2 :: converse C handler r.1 (bseq + 1) rest
+
+open Bmc.Spec Bmc.Proofs.C03 in
+/-- what the caller must receive: for each command in turn the BMC handler's answer to that very command, understood
+    with the next sequence number (counter + 1, then + 2, …, modulo 2^32) -/
+def answers (handler : BmcReq → UInt8 × Bytes) : Nat → List (Cmd × Bytes × Bytes) → List Res
+  | _, [] => []
+  | inb, (c, _, _) :: rest =>
+    let q : BmcReq := ⟨(inb + 1) % 4294967296, c.fn, c.cmd, c.body, c.ent, c.lun, c.req⟩
+    Res.ok (handler q).1 (handler q).2 :: answers handler ((inb + 1) % 4294967296) rest
+
+open Bmc.Spec Bmc.Proofs.C03 in
+/-- EVERY COMMAND OF A SESSION IS ANSWERED (C01, last sentence, for histories of any length): on a session whose keys
+    both sides hold (`keys_agree`), every command of any sequence of well-posed commands passes the BMC's integrity
+    check and decryption, is understood as the caller's command with the next sequence number, and the caller receives
+    exactly the BMC handler's completion code and data for it — for every lawful crypto, any starting counter and BMC
+    sequence number, any handler. -/
+theorem all_commands_answered (C : Ops) (hC : C.Lawful) (handler : BmcReq → UInt8 × Bytes) (s : Sess)
+    (hs : s.inbound < 4294967296) (hid : s.localID < 4294967296) (hr : s.remoteID < 4294967296) (bseq : Nat)
+    (cmds : List (Cmd × Bytes × Bytes)) (hb : bseq + cmds.length < 4294967296)
+    (hx : ∀ e ∈ cmds, ∀ q : Nat, Exchange C s.keys e.1 e.2.1 e.2.2
+            (handler ⟨q, e.1.fn, e.1.cmd, e.1.body, e.1.ent, e.1.lun, e.1.req⟩).1
+            (handler ⟨q, e.1.fn, e.1.cmd, e.1.body, e.1.ent, e.1.lun, e.1.req⟩).2) :
+    converse C handler s bseq cmds = answers handler s.inbound cmds := by
+  induction cmds generalizing s bseq with
+  | nil => simp [converse, answers]
+  | cons e rest ih =>
+    obtain ⟨c, iv, biv⟩ := e
+    have hx0 := hx (c, iv, biv) (by simp) ((s.inbound + 1) % 4294967296)
+    obtain ⟨reply, hans, hsend⟩ := command_answered C hC c s hid hr iv [] handler bseq (by simp at hb; omega) biv [] hx0
+    have hspec := sendLoop_spec C c hx0.ser s hs [iv] [.reply reply] (by simp)
+    have hcls : (expected (classify C s.keys c) [.reply reply]).1 = 1 := by
+      have h2 := hspec.2.1
+      rw [hsend] at h2
+      simp only [] at h2
+      have := congrArg List.length h2
+      simpa using this.symm
+    have hk : (sendLoop C c s [iv] [.reply reply]).1.keys = s.keys := hspec.2.2.1
+    have hi : (sendLoop C c s [iv] [.reply reply]).1.inbound = (s.inbound + 1) % 4294967296 := by
+      rw [hspec.2.2.2, hcls]
+    simp only [converse, hans, answers]
+    have hrec := ih (sendLoop C c s [iv] [.reply reply]).1 (by rw [hi]; omega)
+      (by have h := congrArg Keys.localID hk; simp only [Sess.keys] at h; rw [h]; exact hid)
+      (by have h := congrArg Keys.remoteID hk; simp only [Sess.keys] at h; rw [h]; exact hr)
+      (bseq + 1) (by simp at hb ⊢; omega)
+      (fun e he q => by rw [hk]; exact hx e (by simp [he]) q)
+    rw [hrec, hsend, hi]
+
+/-- non-vacuity: two commands (Get Device ID, then Get Chassis Status) against a BMC whose handler answers 00 + the
+    command number, under the toy crypto: the caller receives exactly that, for both -/
+example :
+    let k : Sess := { localID := 7, remoteID := 9, integ := 1, k1 := [1], k2 := List.replicate 16 0 }
+    converse Crypto.toy (fun r => (0, [r.cmd])) k 100
+      [({ fn := 6, cmd := 1 }, List.replicate 16 3, List.replicate 16 4), ({ fn := 0, cmd := 1 }, List.replicate 16 5, List.replicate 16 6)]
+      = [.ok 0 [1], .ok 0 [1]] := by decide +kernel
 
 end Bmc.Proofs.C01
